@@ -740,6 +740,11 @@ func (b *BackendServer) startDialout(roomid string, backend *Backend, backendUrl
 	var response atomic.Pointer[DialoutInternalClientMessage]
 
 	session.HandleResponse(id, func(message *ClientMessage) bool {
+		if message.Internal == nil || message.Internal.Type != "dialout" || message.Internal.Dialout == nil {
+			// Not a (validated) response to the dialout request, process as regular message.
+			return false
+		}
+
 		response.Store(message.Internal.Dialout)
 		cancel()
 		// Don't send error to other sessions in the room.
